@@ -22,6 +22,7 @@ KINDS = {
     "str": ["a", "b", "c", "d", "e", "f", "g", "h"],
     "float": [0.5, NAN, 2.5, -0.0, 4.5, 5.5, 6.5, 7.5],
     "int?": [10, None, 12, None, 14, 15, None, 17],
+    "object": [1, "a", 2, "b", 3, None, 4.5, "c"],        # a mixed vector: selections keep the object kind even when what they keep is of one type
 }
 CMP = {"eq": operator.eq, "ne": operator.ne, "lt": operator.lt, "le": operator.le, "gt": operator.gt, "ge": operator.ge}
 LOGIC = {"and": operator.and_, "or": operator.or_, "xor": operator.xor}
@@ -642,6 +643,9 @@ def unit_table(unit):
             continue
         for bits in itertools.product([False, True], repeat=m):
             if m == 0:
+                if nrows == 0:
+                    # the empty mask of the right length on a zero-row table (a typed bool VECTOR; the list [] is ambiguous): still a table
+                    rowkeys.append((("mask", bits), "vector"))
                 continue
             rowkeys.append((("mask", bits), "list"))
             rowkeys.append((("mask", bits), "vector"))
